@@ -118,8 +118,19 @@ theorem cb_lawful : Lawful cbMod where
   build_norm _ h := h
   res_norm _ := rfl
   pub_norm _ _ := rfl
-  equals_canon _ _ h := by simp [cbMod] at h
-  equals_buildable _ _ h := by simp [cbMod] at h
+  equals_canon o r h := by
+    cases o; cases r
+    simp only [cbMod, cbIsEqualsTo, Bool.and_eq_true, beq_iff_eq] at h
+    simp only [cbMod, cbCanon, CbRule.mk.injEq]
+    obtain ⟨⟨⟨⟨⟨⟨⟨h1, h2⟩, h3⟩, h4⟩, h5⟩, h6⟩, h7⟩, h8⟩ := h
+    subst h1 h2 h3 h4 h5 h6 h7
+    split_ifs at h8 ⊢ <;> simp_all
+  equals_buildable o r h := by
+    cases o; cases r
+    simp only [cbMod, cbIsEqualsTo, Bool.and_eq_true, beq_iff_eq] at h
+    simp only [cbMod, cbBuildable]
+    obtain ⟨⟨⟨⟨⟨⟨⟨-, h2⟩, -⟩, -⟩, -⟩, -⟩, -⟩, -⟩ := h
+    subst h2; rfl
   canon_norm _ _ h := h
 
 section
@@ -362,11 +373,12 @@ structure Inv (M : RuleMod R) (s : MState R) (L : String → List (Option R)) : 
   bound : ∀ k, (s.bound k).map M.canon = (s.enf k).map M.canon
   boundOk : ∀ k, OldOk M (s.bound k)
   boundEq : (∀ a b, M.equals a b = false) → ∀ k, s.bound k = s.enf k
-  pub : ∀ k, s.pub k = s.bound k ∨ (M.pubValid = true ∧ s.pub k = validList M (L k))
+  pub : ∀ k, (M.pubValid = false ∧ s.pub k = s.bound k) ∨
+    (M.pubValid = true ∧ (s.pub k = validList M (L k) ∨ (s.pub k = [] ∧ s.enf k = [])))
 
 theorem inv_init : Inv M (MState.init : MState R) (fun _ => []) :=
   ⟨fun _ => rfl, fun _ => rfl, fun _ _ => rfl, fun _ => rfl, fun _ _ h => by simp [MState.init] at h,
-   fun _ _ => rfl, fun _ => Or.inl rfl⟩
+   fun _ _ => rfl, fun _ => by cases h : M.pubValid <;> simp [MState.init]⟩
 
 theorem upd_same {α : Type} (f : String → α) (k : String) (v : α) : upd f k v k = v := by simp [upd]
 theorem upd_other {α : Type} (f : String → α) {k x : String} (v : α) (h : x ≠ k) : upd f k v x = f x := by simp [upd, h]
@@ -437,19 +449,20 @@ theorem inv_loadAll (hM : Lawful M) {s : MState R} {L : String → List (Option 
       rw [← hc k, hI.enf k, hI.cache k, buildList_map_normIn hM]
     · show proj M k rules = []
       rw [← hc k, hI.cache k, hI.keys k hk]; rfl
-    · show s.pub k = s.bound k ∨ _
-      rcases hI.pub k with hp | ⟨hp, hv⟩
+    · show (M.pubValid = false ∧ s.pub k = s.bound k) ∨ _
+      rcases hI.pub k with hp | ⟨hp, hv | hv⟩
       · exact Or.inl hp
-      · refine Or.inr ⟨hp, ?_⟩
+      · refine Or.inr ⟨hp, Or.inl ?_⟩
         show s.pub k = validList M (proj M k rules)
         rw [hv, ← hc k, hI.cache k, normIn_eq_self_of_pub hM hp]
+      · exact Or.inr ⟨hp, Or.inr hv⟩
   · rw [loadAll_changed h]
     refine ⟨fun k => rfl, fun k => rfl, fun k hk => proj_nil_of_not_mem k rules hk,
             fun k => (buildReuse_spec hM k _ _ (hI.boundOk k)).1, fun k => (buildReuse_spec hM k _ _ (hI.boundOk k)).2,
             fun hne k => buildReuse_eq_of_no_equals hne k _ _, fun k => ?_⟩
     by_cases hp : M.pubValid = true
-    · exact Or.inr ⟨hp, by simp [hp]⟩
-    · exact Or.inl (by simp [hp])
+    · exact Or.inr ⟨hp, Or.inl (by simp [hp])⟩
+    · exact Or.inl ⟨by simpa using hp, by simp [hp]⟩
 
 theorem inv_upd_nil {s : MState R} {L : String → List (Option R)} (hI : Inv M s L) (res : String) :
     Inv M (MState.mk s.keys (upd s.cache res []) (upd s.enf res []) (upd s.bound res []) (upd s.pub res [])) (upd L res []) := by
@@ -467,7 +480,7 @@ theorem inv_upd_nil {s : MState R} {L : String → List (Option R)} (hI : Inv M 
   · simp only [upd_other _ _ hk']; exact hI.boundOk k
   · subst hk'; simp [upd_same]
   · simp only [upd_other _ _ hk']; exact hI.boundEq hne k
-  · subst hk'; simp [upd_same]
+  · subst hk'; cases h : M.pubValid <;> simp [upd_same]
   · simp only [upd_other _ _ hk']; exact hI.pub k
 
 theorem inv_loadRes (hM : Lawful M) {s : MState R} {L : String → List (Option R)} (hI : Inv M s L) (res : String)
@@ -489,10 +502,11 @@ theorem inv_loadRes (hM : Lawful M) {s : MState R} {L : String → List (Option 
     · subst hk'; rw [upd_same, ← hc, hI.cache k, hI.keys k hk]; rfl
     · rw [upd_other _ _ hk']; exact hI.keys k hk
     · subst hk'
-      rcases hI.pub k with hp | ⟨hp, hv⟩
+      rcases hI.pub k with hp | ⟨hp, hv | hv⟩
       · exact Or.inl hp
-      · refine Or.inr ⟨hp, ?_⟩
+      · refine Or.inr ⟨hp, Or.inl ?_⟩
         rw [upd_same, hv, ← hc, hI.cache k, normIn_eq_self_of_pub hM hp]
+      · exact Or.inr ⟨hp, Or.inr hv⟩
     · rw [upd_other _ _ hk']; exact hI.pub k
   · rw [loadRes_changed h0 h1 hc]
     refine ⟨fun k => ?_, fun k => ?_, fun k hk => ?_, fun k => ?_, fun k => ?_, fun hne k => ?_, fun k => ?_⟩
@@ -514,13 +528,9 @@ theorem inv_loadRes (hM : Lawful M) {s : MState R} {L : String → List (Option 
       simp only [upd_same]
       by_cases hp : M.pubValid = true
       · by_cases hb : buildList M k rules = []
-        · left
-          simp only [hp, hb, if_true]
-          have := (buildReuse_spec hM k rules (s.bound k) (hI.boundOk k)).1
-          rw [hb] at this
-          simpa using this.symm
-        · exact Or.inr ⟨hp, by simp [hp, hb]⟩
-      · exact Or.inl (by simp [hp])
+        · exact Or.inr ⟨hp, Or.inr ⟨by simp [hp, hb], hb⟩⟩
+        · exact Or.inr ⟨hp, Or.inl (by simp [hp, hb])⟩
+      · exact Or.inl ⟨by simpa using hp, by simp [hp]⟩
     · simp only [upd_other _ _ hk']; exact hI.pub k
 
 theorem inv_step (hM : Lawful M) {s : MState R} {L : String → List (Option R)} (hI : Inv M s L) (op : Op R) :
@@ -539,6 +549,260 @@ theorem inv_foldl (hM : Lawful M) (ops : List (Op R)) {s : MState R} {L : String
 
 theorem inv_run (hM : Lawful M) (ops : List (Op R)) : Inv M (run M ops) (latest M ops) :=
   inv_foldl hM ops inv_init
+
+/-! ### controller identities -/
+
+theorem findP_perm {α : Type} {p : α → Bool} {l : List α} {x : α} {rest : List α} (h : findP p l = some (x, rest)) :
+    l.Perm (x :: rest) := by
+  induction l generalizing x rest with
+  | nil => simp [findP] at h
+  | cons a os ih =>
+    unfold findP at h
+    by_cases hp : p a = true
+    · rw [if_pos hp] at h
+      simp only [Option.some.injEq, Prod.mk.injEq] at h
+      obtain ⟨rfl, rfl⟩ := h
+      exact List.Perm.refl _
+    · rw [if_neg hp] at h
+      cases hf : findP p os with
+      | none => rw [hf] at h; simp at h
+      | some q =>
+        obtain ⟨x', rest'⟩ := q
+        rw [hf] at h
+        simp only [Option.map_some, Option.some.injEq, Prod.mk.injEq] at h
+        obtain ⟨rfl, rfl⟩ := h
+        exact ((ih hf).cons a).trans (List.Perm.swap _ _ _)
+
+theorem dropP_sublist {α : Type} (p : α → Bool) (l : List α) : (dropP p l).Sublist l := by
+  induction l with
+  | nil => exact List.Sublist.refl _
+  | cons a os ih =>
+    unfold dropP
+    split_ifs
+    · exact List.sublist_cons_self _ _
+    · exact ih.cons_cons a
+
+theorem findEq_map_fst (r : R) (z : List (R × Nat)) :
+    findEq M r (z.map Prod.fst) = (findP (fun x => M.equals x.1 r) z).map fun y => (y.1.1, y.2.map Prod.fst) := by
+  induction z with
+  | nil => rfl
+  | cons a os ih =>
+    simp only [List.map_cons, findEq, findP]
+    by_cases h : M.equals a.1 r = true
+    · simp [h]
+    · simp only [h, if_false, Bool.false_eq_true]
+      rw [ih]
+      cases findP (fun x => M.equals x.1 r) os <;> simp
+
+theorem dropStat_map_fst (r : R) (z : List (R × Nat)) :
+    dropStat M r (z.map Prod.fst) = (dropP (fun x => M.statReusable x.1 r) z).map Prod.fst := by
+  induction z with
+  | nil => rfl
+  | cons a os ih =>
+    simp only [List.map_cons, dropStat, dropP]
+    by_cases h : M.statReusable a.1 r = true
+    · simp [h]
+    · simp [h, ih]
+
+/-- the identity layer carries exactly the rule objects of `buildReuse` -/
+theorem buildZ_fst (k : String) (rules : List R) : ∀ (z : List (R × Nat)) (n : Nat),
+    (buildZ M k rules z n).map Prod.fst = buildReuse M k rules (z.map Prod.fst) := by
+  induction rules with
+  | nil => intro z n; rfl
+  | cons r rs ih =>
+    intro z n
+    unfold buildZ buildReuse
+    by_cases hs : (M.scopedRes && M.res r != k) = true
+    · rw [if_pos hs, if_pos hs]; exact ih z n
+    · rw [if_neg hs, if_neg hs, findEq_map_fst]
+      cases hf : findP (fun x => M.equals x.1 r) z with
+      | some q =>
+        obtain ⟨x, rest⟩ := q
+        simp only [Option.map_some, List.map_cons]
+        rw [ih rest n]
+      | none =>
+        simp only [Option.map_none]
+        by_cases hb : M.buildable r = true
+        · simp only [hb, if_true, List.map_cons]
+          rw [ih, dropStat_map_fst]
+        · simp only [hb, if_false, Bool.false_eq_true]
+          exact ih z n
+
+/-- ids of the controllers in force: pairwise distinct, and each either an old controller's or a fresh one -/
+theorem buildZ_ids (k : String) (rules : List R) : ∀ (z : List (R × Nat)) (n : Nat),
+    (z.map Prod.snd).Nodup → (∀ x ∈ z, x.2 < n) →
+    ((buildZ M k rules z n).map Prod.snd).Nodup ∧
+    ∀ y ∈ buildZ M k rules z n, (y ∈ z ∨ n ≤ y.2) ∧ y.2 < n + rules.length := by
+  induction rules with
+  | nil => intro z n _ _; exact ⟨List.nodup_nil, fun y hy => by simp [buildZ] at hy⟩
+  | cons r rs ih =>
+    intro z n hnd hlt
+    unfold buildZ
+    have widen : ∀ {out : List (R × Nat)} {z' : List (R × Nat)} {n' : Nat}, (∀ x ∈ z', x ∈ z) → n ≤ n' → n' + rs.length ≤ n + (r :: rs).length →
+        (∀ y ∈ out, (y ∈ z' ∨ n' ≤ y.2) ∧ y.2 < n' + rs.length) → ∀ y ∈ out, (y ∈ z ∨ n ≤ y.2) ∧ y.2 < n + (r :: rs).length := by
+      intro out z' n' hsub hn hn' h y hy
+      obtain ⟨h1, h2⟩ := h y hy
+      refine ⟨?_, by omega⟩
+      rcases h1 with h1 | h1
+      · exact Or.inl (hsub y h1)
+      · exact Or.inr (by omega)
+    by_cases hs : (M.scopedRes && M.res r != k) = true
+    · rw [if_pos hs]
+      obtain ⟨h1, h2⟩ := ih z n hnd hlt
+      exact ⟨h1, widen (fun x hx => hx) (le_refl _) (by simp) h2⟩
+    · rw [if_neg hs]
+      cases hf : findP (fun x => M.equals x.1 r) z with
+      | some q =>
+        obtain ⟨x, rest⟩ := q
+        dsimp only
+        have hperm := findP_perm hf
+        have hnd' : ((x :: rest).map Prod.snd).Nodup := (hperm.map Prod.snd).nodup_iff.mp hnd
+        simp only [List.map_cons, List.nodup_cons] at hnd'
+        have hsub : ∀ y ∈ rest, y ∈ z := fun y hy => hperm.mem_iff.mpr (List.mem_cons_of_mem _ hy)
+        have hx : x ∈ z := hperm.mem_iff.mpr List.mem_cons_self
+        obtain ⟨h1, h2⟩ := ih rest n hnd'.2 (fun y hy => hlt y (hsub y hy))
+        refine ⟨?_, ?_⟩
+        · simp only [List.map_cons, List.nodup_cons]
+          refine ⟨?_, h1⟩
+          intro hmem
+          obtain ⟨y, hy, hyx⟩ := List.mem_map.mp hmem
+          rcases (h2 y hy).1 with hy' | hy'
+          · exact hnd'.1 (List.mem_map.mpr ⟨y, hy', hyx⟩)
+          · have := hlt x hx; omega
+        · intro y hy
+          rcases List.mem_cons.mp hy with rfl | hy
+          · exact ⟨Or.inl hx, by have := hlt y hx; simp; omega⟩
+          · exact widen hsub (le_refl _) (by simp) h2 y hy
+      | none =>
+        dsimp only
+        by_cases hb : M.buildable r = true
+        · rw [if_pos hb]
+          have hsl := dropP_sublist (fun x : R × Nat => M.statReusable x.1 r) z
+          have hsub : ∀ y ∈ dropP (fun x : R × Nat => M.statReusable x.1 r) z, y ∈ z := fun y hy => hsl.subset hy
+          obtain ⟨h1, h2⟩ := ih _ (n + 1) ((hsl.map Prod.snd).nodup hnd) (fun y hy => by have := hlt y (hsub y hy); omega)
+          refine ⟨?_, ?_⟩
+          · simp only [List.map_cons, List.nodup_cons]
+            refine ⟨?_, h1⟩
+            intro hmem
+            obtain ⟨y, hy, hyx⟩ := List.mem_map.mp hmem
+            rcases (h2 y hy).1 with hy' | hy'
+            · have := hlt y (hsub y hy'); omega
+            · omega
+          · intro y hy
+            rcases List.mem_cons.mp hy with rfl | hy
+            · exact ⟨Or.inr (le_refl _), by simp⟩
+            · exact widen hsub (by omega) (by simp; omega) h2 y hy
+        · rw [if_neg hb]
+          obtain ⟨h1, h2⟩ := ih z n hnd hlt
+          exact ⟨h1, widen (fun x hx => hx) (le_refl _) (by simp) h2⟩
+
+/-- invariant of the identity layer -/
+structure CInv (s : MState R) (c : CState R) : Prop where
+  fst : ∀ k, (c.ctrl k).map Prod.fst = s.bound k
+  nodup : ∀ k, ((c.ctrl k).map Prod.snd).Nodup
+  lt : ∀ k, ∀ x ∈ c.ctrl k, x.2 < c.next
+
+theorem cinv_step {s : MState R} {c : CState R} (hI : CInv s c) (op : Op R) :
+    CInv (step M s op).1 (cstep M s c op) := by
+  have hA : ∀ rules, CInv (loadAll M s rules).1
+      (if (loadAll M s rules).2 = .changed then
+        { ctrl := fun k => buildZ M k (validList M (proj M k rules)) (c.ctrl k) c.next, next := c.next + rules.length } else c) := by
+    intro rules
+    by_cases h : (s.keys ++ ruleKeys M rules).all (fun k => s.cache k == proj M k rules) = true
+    · rw [loadAll_unchanged h]; simpa using hI
+    · rw [loadAll_changed h]
+      simp only [if_true]
+      refine ⟨fun k => ?_, fun k => ?_, fun k x hx => ?_⟩
+      · show (buildZ M k _ (c.ctrl k) c.next).map Prod.fst = buildReuse M k _ (s.bound k)
+        rw [buildZ_fst, hI.fst k]
+      · exact (buildZ_ids k _ _ _ (hI.nodup k) (hI.lt k)).1
+      · have := ((buildZ_ids (M := M) k _ _ _ (hI.nodup k) (hI.lt k)).2 x hx).2
+        have hl : (validList M (proj M k rules)).length ≤ rules.length :=
+          (List.length_filter_le _ _).trans ((List.length_filterMap_le _ _).trans (List.length_filter_le _ _))
+        show x.2 < c.next + rules.length
+        omega
+  have hR : ∀ res rules, CInv (loadRes M s res rules).1
+      (if (loadRes M s res rules).2 = .changed then
+        { ctrl := upd c.ctrl res (buildZ M res (validList M rules) (c.ctrl res) c.next), next := c.next + rules.length } else c) := by
+    intro res rules
+    by_cases h0 : res = ""
+    · subst h0; rw [loadRes_noRes]; simpa using hI
+    by_cases h1 : rules = []
+    · subst h1; rw [loadRes_clear h0]
+      simp only [if_true]
+      refine ⟨fun k => ?_, fun k => ?_, fun k x hx => ?_⟩
+      all_goals by_cases hk : k = res
+      · subst hk; simp [upd_same, validList, buildZ]
+      · simp only [upd_other _ _ hk]; exact hI.fst k
+      · subst hk; simp [upd_same, validList, buildZ]
+      · simp only [upd_other _ _ hk]; exact hI.nodup k
+      · subst hk; simp [upd_same, validList, buildZ] at hx
+      · simp only [upd_other _ _ hk] at hx; have := hI.lt k x hx; simpa using this
+    by_cases hc : s.cache res = rules
+    · rw [loadRes_unchanged h0 h1 hc]; simpa using hI
+    · rw [loadRes_changed h0 h1 hc]
+      simp only [if_true]
+      refine ⟨fun k => ?_, fun k => ?_, fun k x hx => ?_⟩
+      all_goals by_cases hk : k = res
+      · subst hk; simp only [upd_same]; rw [buildZ_fst, hI.fst k]
+      · simp only [upd_other _ _ hk]; exact hI.fst k
+      · subst hk; simp only [upd_same]; exact (buildZ_ids k _ _ _ (hI.nodup k) (hI.lt k)).1
+      · simp only [upd_other _ _ hk]; exact hI.nodup k
+      · subst hk
+        simp only [upd_same] at hx
+        have := ((buildZ_ids (M := M) k _ _ _ (hI.nodup k) (hI.lt k)).2 x hx).2
+        have hl : (validList M rules).length ≤ rules.length :=
+          (List.length_filter_le _ _).trans (List.length_filterMap_le _ _)
+        show x.2 < c.next + rules.length
+        omega
+      · simp only [upd_other _ _ hk] at hx
+        have := hI.lt k x hx
+        show x.2 < c.next + rules.length
+        omega
+  cases op with
+  | loadAll rules => exact hA rules
+  | loadRes res rules => exact hR res rules
+  | clearAll =>
+    have := hA []
+    simp only [step, cstep]
+    split_ifs at this ⊢ with h
+    · refine ⟨fun k => ?_, fun k => ?_, fun k x hx => ?_⟩
+      · rw [← this.fst k]; simp [validList, proj, buildZ]
+      · simp
+      · simp at hx
+    · exact this
+  | clearRes res =>
+    have := hR res []
+    simp only [step, cstep]
+    split_ifs at this ⊢ with h
+    · refine ⟨fun k => ?_, fun k => ?_, fun k x hx => ?_⟩
+      all_goals by_cases hk : k = res
+      · subst hk; rw [← this.fst k]; simp [upd_same, validList, buildZ]
+      · rw [← this.fst k]; simp [upd_other _ _ hk]
+      · subst hk; simp [upd_same]
+      · simp only [upd_other _ _ hk]; exact hI.nodup k
+      · subst hk; simp [upd_same] at hx
+      · simp only [upd_other _ _ hk] at hx; exact hI.lt k x hx
+    · exact this
+
+theorem cinv_run (ops : List (Op R)) : CInv (runC M ops).1 (runC M ops).2 := by
+  have gen : ∀ (ops : List (Op R)) (sc : MState R × CState R), CInv sc.1 sc.2 →
+      CInv (ops.foldl (fun sc op => ((step M sc.1 op).1, cstep M sc.1 sc.2 op)) sc).1
+           (ops.foldl (fun sc op => ((step M sc.1 op).1, cstep M sc.1 sc.2 op)) sc).2 := by
+    intro ops
+    induction ops with
+    | nil => intro sc h; exact h
+    | cons op ops ih => intro sc h; exact ih _ (cinv_step h op)
+  exact gen ops _ ⟨fun _ => rfl, fun _ => List.nodup_nil, fun _ _ hx => by simp [CState.init] at hx⟩
+
+theorem runC_fst (ops : List (Op R)) : (runC M ops).1 = run M ops := by
+  have gen : ∀ (ops : List (Op R)) (sc : MState R × CState R),
+      (ops.foldl (fun sc op => ((step M sc.1 op).1, cstep M sc.1 sc.2 op)) sc).1 = ops.foldl (fun s op => (step M s op).1) sc.1 := by
+    intro ops
+    induction ops with
+    | nil => intro sc; rfl
+    | cons op ops ih => intro sc; exact ih _
+  exact gen ops _
 
 theorem run_snoc (ops : List (Op R)) (op : Op R) : run M (ops ++ [op]) = (step M (run M ops) op).1 := by
   simp [run, List.foldl_append]
